@@ -61,21 +61,3 @@ func (c *Counter) VState() (bits uint64, ptrSet bool) {
 }
 func (c *Counter) VExtra() uint64 { return c.state.load().extra() }
 
-// VStacks (C15) returns, for every counter the stack counter has created so
-// far, the program counters it was created for and the counter itself.
-func (c *StackCounter) VStacks() (pcs [][]uintptr, ctrs []*Counter) {
-	c.mu.Lock()
-	defer c.mu.Unlock()
-	for _, s := range c.stacks {
-		pcs = append(pcs, append([]uintptr(nil), s.pcs...))
-		ctrs = append(ctrs, s.counter)
-	}
-	return pcs, ctrs
-}
-
-// VNumStacks (C15) is the number of counters the stack counter has created.
-func (c *StackCounter) VNumStacks() int {
-	c.mu.Lock()
-	defer c.mu.Unlock()
-	return len(c.stacks)
-}
